@@ -112,6 +112,8 @@ func (db *LevelDBDatabase) Put(key []byte, value []byte) error {
 		site := "index"
 		if string(key) == string(StableBlockKey) {
 			site = "stable-pointer"
+		} else if strings.HasPrefix(string(key), string(BitCaskCurrentOffsetPrefix)) {
+			site = "cursor"
 		}
 		verifhook.Point("leveldb:before-put:" + site)
 		defer verifhook.Point("leveldb:after-put:" + site)
